@@ -36,7 +36,7 @@
    flush_body), the greatest-priority choice as a trace property (the trace does not show the set of
    pending batches; function level only, C05_select_greatest_priority), and a purely trace-level
    form of T2 for run_case (T2 is stated on the configurations of [run]). *)
-From Asynq Require Import Machine proofs.MachineC05 proofs.MachineTrace proofs.MachineC05T.
+From Asynq Require Import Machine proofs.MachineC05 proofs.MachineTrace proofs.MachineC05T proofs.MachineC05P.
 
 Theorem C05_select_greatest_priority : forall P s k s',
   select P s = (Some k, s') ->
@@ -126,6 +126,29 @@ Theorem C05_scheduler_flush_only_while_waiting_run : forall P n c0 kind idx,
     trace (c_st (run P (S k) c0)) = evs ++ trace (c_st (run P k c0)) /\ In (EvBefore kind idx) evs.
 Proof. exact run_before_origin. Qed.
 Print Assumptions C05_scheduler_flush_only_while_waiting_run.
+
+(* [greatest P k s] (proofs/MachineC05P.v) unfolds to:  In k (sb s) /\ eligible k s = true /\
+   forall k', In k' (sb s) -> eligible k' s = true -> prio_lt (prio_of P k s) (prio_of P k' s) = false *)
+(* priority at trace level, every program / history / oracle / fuel: a transition that announces a scheduler
+   flush (EvBefore kind idx) starts from a state in which that batch is in the scheduler's set, pending, non-empty
+   and no other scheduled pending non-empty batch has a strictly greater priority; afterwards the batch is done
+   and no longer scheduled *)
+Theorem C05_scheduler_flush_is_greatest_priority_step : forall P c evs kind idx,
+  trace (c_st (step P c)) = evs ++ trace (c_st c) -> In (EvBefore kind idx) evs ->
+  greatest P (kind, idx) (c_st c) /\
+  b_done (get_batch (kind, idx) (c_st (step P c))) = true /\ ~ In (kind, idx) (sb (c_st (step P c))).
+Proof. exact step_before_is_greatest. Qed.
+Print Assumptions C05_scheduler_flush_is_greatest_priority_step.
+
+(* run level: every EvBefore in the trace after n steps was there before or was emitted by step number k < n from
+   a configuration in whose state the batch was a greatest-priority scheduled pending batch *)
+Theorem C05_scheduler_flush_is_greatest_priority_run : forall P n c0 kind idx,
+  In (EvBefore kind idx) (trace (c_st (run P n c0))) ->
+  In (EvBefore kind idx) (trace (c_st c0)) \/
+  exists k, (k < n)%nat /\ greatest P (kind, idx) (c_st (run P k c0)) /\
+            b_done (get_batch (kind, idx) (c_st (run P (S k) c0))) = true.
+Proof. exact run_before_is_greatest. Qed.
+Print Assumptions C05_scheduler_flush_is_greatest_priority_run.
 
 (* T3: the batch the scheduler picks is non-empty and neither flushed nor cancelled *)
 Theorem C05_selected_batch_nonempty_pending : forall P s k s1,
